@@ -7,7 +7,7 @@
        relative to that directory, component by component). *)
 From Coq Require Import Bool Arith Ascii String List.
 From CBI Require Import Lib.Res Model.C13p Model.C13fs Model.C13 Spec.C13 Spec.C13db
-  Proofs.C13p Proofs.C13 Proofs.C13db Proofs.C13k Proofs.C13n Proofs.C13c2.
+  Proofs.C13p Proofs.C13 Proofs.C13db Proofs.C13k Proofs.C13n Proofs.C13c2 Proofs.C13v.
 From CBI Require Model.C04 Spec.C04 Proofs.C13c.
 Import ListNotations.
 
@@ -107,6 +107,52 @@ Theorem C13_compiler_view :
 Proof. intros fs root d. split; [apply k_file_lexical|apply k_inc_lexical]. Qed.
 Print Assumptions C13_compiler_view.
 
+(* The converse, inside an explicit, decidable domain (Spec/C13.v): the tree has
+   no symbolic links (the model has none), the compiler can be started in
+   `directory` ([dir_ok]: the spelling of `directory` crosses only existing
+   directories and arrives at one) and the spelling crosses only existing
+   directories ([spelling_ok]).  There the two views coincide in BOTH
+   directions: the compiler opens l iff l is S's location and is a regular file;
+   it searches l iff l is S's location and is a directory. *)
+Theorem C13_compiler_view_iff :
+  forall fs root directory, dir_ok fs root directory = true ->
+    (forall file l, spelling_ok fs (s_dir root directory) file = true ->
+       (k_file fs root directory file = Some l <->
+        l = s_file root directory file /\ kind_of fs l = Some false)) /\
+    (forall i l, spelling_ok fs (s_dir root directory) i = true ->
+       (k_inc fs root directory i = Some l <->
+        l = resolve (s_dir root directory) i /\ kind_of fs l = Some true)).
+Proof. exact compiler_view_iff. Qed.
+Print Assumptions C13_compiler_view_iff.
+
+(* ... and so M's decision for one supported entry IS what a compiler process
+   started in `directory` does: load_database keeps the entry with a path that
+   denotes l iff the compiler opens the regular file at l (otherwise both skip) *)
+Theorem C13_entry_iff_compiler :
+  forall fs cwd rootdir, wf_fs fs -> isabs cwd = true ->
+  forall directory file argv l,
+    let root := resolve (cwdloc cwd) rootdir in
+    is_supported file argv = true ->
+    dir_ok fs root directory = true ->
+    spelling_ok fs (s_dir root directory) file = true ->
+    kind_of fs (s_file root directory file) <> Some true ->     (* not a directory named like a source *)
+    ((exists x, do_entry fs cwd rootdir directory file argv = Ok ([x], []) /\ resolve [] (o_file x) = l)
+     <-> k_file fs root directory file = Some l).
+Proof. exact entry_iff_compiler. Qed.
+Print Assumptions C13_entry_iff_compiler.
+
+(* the in-domain flag the harness computes per entry (k_agrees) holds throughout
+   the explicit domain *)
+Theorem C13_domain_agrees :
+  forall fs root directory file argv incs,
+    dir_ok fs root directory = true ->
+    spelling_ok fs (s_dir root directory) file = true ->
+    forallb (spelling_ok fs (s_dir root directory)) incs = true ->
+    kind_of fs (s_file root directory file) <> Some true ->
+    k_agrees fs root directory file incs (s_entry fs root directory file argv incs) = true.
+Proof. exact domain_agrees. Qed.
+Print Assumptions C13_domain_agrees.
+
 (* os.path.exists on the normalised string = the location exists, in every
    tree in which the parent of each object is a directory *)
 Theorem C13_exists :
@@ -143,6 +189,21 @@ Theorem C13_skips_are_local :
     end.
 Proof. exact skips_are_local. Qed.
 Print Assumptions C13_skips_are_local.
+
+(* load_database is a map over the entries: what a list of entries yields is
+   the concatenation of what its parts yield (entries, and per-entry warnings),
+   and it fails iff a part fails.  In particular no entry's result depends on
+   the entries before or after it. *)
+Theorem C13_load_is_a_map :
+  forall fs cwd rootdir xs ys,
+    outputs (load_database fs cwd rootdir (xs ++ ys)) =
+      match outputs (load_database fs cwd rootdir xs), outputs (load_database fs cwd rootdir ys) with
+      | Some a, Some b => Some (a ++ b) | _, _ => None end /\
+    entry_warnings (load_database fs cwd rootdir (xs ++ ys)) =
+      match entry_warnings (load_database fs cwd rootdir xs), entry_warnings (load_database fs cwd rootdir ys) with
+      | Some a, Some b => Some (a ++ b) | _, _ => None end.
+Proof. exact load_app. Qed.
+Print Assumptions C13_load_is_a_map.
 
 (* nothing but resolved database entries comes out of load_database: every
    returned entry is the resolution of some entry of the database, with that
@@ -232,13 +293,16 @@ Example C13_nonvacuous_db :
     = Ok ([ {| o_file := s "/w/root/src/a.c"; o_incs := [s "/w/root/build/inc"] |} ],
           [WUnsupported; WUnsupported; WMissing (s "/w/root/build/gen.c")]) /\
   skipped ex_fs (s "/w") (s "/w/root") (nth 1 ex_db (Build_entry None None None)) WUnsupported /\
-  k_file ex_fs [s "root"; s "w"] (Some (s "build")) (s "../src/a.c") = Some [s "a.c"; s "src"; s "root"; s "w"].
+  k_file ex_fs [s "root"; s "w"] (Some (s "build")) (s "../src/a.c") = Some [s "a.c"; s "src"; s "root"; s "w"] /\
+  dir_ok ex_fs [s "root"; s "w"] (Some (s "build")) = true /\
+  spelling_ok ex_fs [s "build"; s "root"; s "w"] (s "../src/a.c") = true /\
+  spelling_ok ex_fs [s "build"; s "root"; s "w"] (s "gen/../../src/a.c") = false.
 Proof.
   split; [apply wf_b_correct; vm_compute; reflexivity|].
   split; [vm_compute; reflexivity|].
   split; [vm_compute; reflexivity|].
-  split; [|vm_compute; reflexivity].
-  exists (s "a.o"), [s "gcc"; s "a.o"]. repeat split.
+  split; [exists (s "a.o"), [s "gcc"; s "a.o"]; repeat split|].
+  vm_compute. repeat split.
 Qed.
 
 (* non-vacuity of C13_only_named_files: the entry of C13_nonvacuous_db fed to
